@@ -606,9 +606,8 @@ class TOCSchemas:
     ):
         if parents is None:  # remove schema
             for parent in self._parents[schema_ref]:
-                if parent in self._schemas:
-                    self._children[parent].remove(schema_ref)
-                elif all(
+                self._children[parent].discard(schema_ref)
+                if parent not in self._schemas and all(
                     (child not in self._schemas for child in self._children[parent])
                 ):
                     del self._parents[parent]
